@@ -595,41 +595,41 @@ theorem C17_ashr (x y : Val) (w : Nat) (s : Bool) (hx : x.canon) (hy : y.canon) 
 theorem big_eq_ref_neg (a : V4) (w : Nat) (s : Bool) (ha : a.wf) (hwa : a.width = w) :
     (Big.neg a w).toBV = minusBV a.toBV w s := Big.neg_eq_ref a w s ha hwa
 
-/-- The two representations agree on unary minus except for the U64 arm's overflow at width 64,
-    operand 0. -/
-theorem u64_eq_big_neg_partial (a : V4) (w : Nat) (h64 : w ≤ 64) (ha : a.wf) (hwa : a.width = w)
-    (hok : w < 64 ∨ a.payload ≠ 0 ∨ a.mask ≠ 0) : U64.neg a w = some (Big.neg a w) :=
-  U64.neg_eq_big a w h64 ha hwa hok
+/-- The two representations agree on unary minus (U64 arm: `wrapping_add`, /repo commit c18109e). -/
+theorem u64_eq_big_neg (a : V4) (w : Nat) (h64 : w ≤ 64) (ha : a.wf) (hwa : a.width = w) :
+    U64.neg a w = Big.neg a w := U64.neg_eq_big a w h64 ha hwa
 
-/-- What does hold for unary minus: IEEE-exact (two's complement modulo `2^w`, all-X on any X/Z)
-    unless the context is exactly 64 bits wide and the extended operand is the known value 0. -/
-theorem C17_neg_partial (x : Val) (w : Nat) (s : Bool) (hx : x.canon) (hwx : x.width ≤ w) (hw0 : 0 < w)
-    (hok : w ≠ 64 ∨ (ext x.v w s).payload ≠ 0 ∨ (ext x.v w s).mask ≠ 0) :
+theorem u64_eq_ref_neg (a : V4) (w : Nat) (s : Bool) (h64 : w ≤ 64) (ha : a.wf) (hwa : a.width = w) :
+    (U64.neg a w).toBV = minusBV a.toBV w s := by
+  rw [u64_eq_big_neg a w h64 ha hwa]; exact big_eq_ref_neg a w s ha hwa
+
+/-- Unary minus is IEEE-exact: two's complement modulo `2^w`, all-X on any X/Z, every width,
+    both representations (including `-64'd0`). -/
+theorem C17_neg (x : Val) (w : Nat) (s : Bool) (hx : x.canon) (hwx : x.width ≤ w) (hw0 : 0 < w) :
     ∃ v, evalUnary .Sub x w s = some v ∧ v.v.toBV = Ref.minus x.v w s := by
   obtain ⟨a, ha, hawf, hwa, he⟩ := unaryCtx_spec x w s hx hwx hw0
-  have hp : a.payload = (ext x.v w s).payload := by have := congrArg BV.payload ha; simpa [V4.toBV] using this
-  have hm : a.mask = (ext x.v w s).mask := by have := congrArg BV.mask ha; simpa [V4.toBV] using this
   simp only [evalUnary, he, Option.bind_eq_bind, Option.bind_some]
   by_cases h : 64 < w
   · simp only [h, if_true]
     exact ⟨_, rfl, by rw [Val.v_big, big_eq_ref_neg a w s hawf hwa, ha]; rfl⟩
   · simp only [h, if_false]
-    have hok' : w < 64 ∨ a.payload ≠ 0 ∨ a.mask ≠ 0 := by
-      rcases hok with h1 | h1 | h1
-      · exact Or.inl (by omega)
-      · exact Or.inr (Or.inl (by rw [hp]; exact h1))
-      · exact Or.inr (Or.inr (by rw [hm]; exact h1))
-    rw [u64_eq_big_neg_partial a w (by omega) hawf hwa hok']
-    exact ⟨_, rfl, by rw [Val.v_u64, big_eq_ref_neg a w s hawf hwa, ha]; rfl⟩
+    exact ⟨_, rfl, by rw [Val.v_u64, u64_eq_ref_neg a w s (by omega) hawf hwa, ha]; rfl⟩
 
-/-- `-64'd0` evaluated in the U64 representation: `ret.payload ^= mask; ret.payload += 1` overflows
-    (panic in the debug profile; release wraps to the right value). IEEE: 0. -/
-theorem C17_neg_witness :
-    evalUnary .Sub (.u64 ⟨64, 0, 0, false⟩) 64 false = none ∧
+/-- `-64'd0` is 0 in the U64 representation too. -/
+theorem C17_neg_width64_zero :
+    (evalUnary .Sub (.u64 ⟨64, 0, 0, false⟩) 64 false).map (·.v.toBV) = some ⟨64, 0, 0⟩ ∧
     Ref.minus ⟨64, 0, 0, false⟩ 64 false = ⟨64, 0, 0⟩ := by decide
 
-example : (64 : Nat) ≠ 64 ∨ (ext ⟨64, 1, 0, false⟩ 64 false).payload ≠ 0 ∨ (ext ⟨64, 1, 0, false⟩ 64 false).mask ≠ 0 := by
-  decide
+/-- The repaired defect (DESIGN §5 finding #20), about the arm as it was before commit c18109e:
+    `ret.payload += 1` agreed with the BigUint arm away from width 64 / operand 0 … -/
+theorem old_u64_eq_big_neg_partial (a : V4) (w : Nat) (h64 : w ≤ 64) (ha : a.wf) (hwa : a.width = w)
+    (hok : w < 64 ∨ a.payload ≠ 0 ∨ a.mask ≠ 0) : U64.negOld a w = some (Big.neg a w) :=
+  U64.negOld_eq_big a w h64 ha hwa hok
+
+/-- … and overflowed (debug-profile panic) there. -/
+theorem old_C17_neg_witness : U64.negOld ⟨64, 0, 0, false⟩ 64 = none := U64.negOld_overflow
+
+example : (64 : Nat) < 64 ∨ (⟨64, 1, 0, false⟩ : V4).payload ≠ 0 ∨ (⟨64, 1, 0, false⟩ : V4).mask ≠ 0 := by decide
 
 
 /-! ## < <= > >= (§11.4.4) -/
